@@ -150,7 +150,7 @@ static ssize_t sink_write(void* c, const char* buf, size_t n) {
         size_t nc = (s->len + room) * 2 + 256; s->data = __real_realloc(s->data, nc); s->cap = nc;
     }
     memcpy(s->data + s->len, buf, room); s->len += room;
-    if (fail_now) { s->failed = 1; errno = ENOSPC; }
+    if (fail_now) { if (!s->transient) s->failed = 1; errno = ENOSPC; }
     return (ssize_t)room;      /* fopencookie: 0 signals error, short count also sets the error flag */
 }
 static int sink_close(void* c) {
